@@ -801,7 +801,18 @@ class Script:
                 cut = fault['cut'] if fault['cut'] >= 0 else len(stream) + 1 + fault['cut']
                 cut = min(cut, len(stream))
                 sk.sendall(stream[:cut])
-                time.sleep(0.01)
+                if fault.get('when') == 'at-once':
+                    # the reset follows the last byte as closely as possible (once the peer's TCP has acknowledged everything,
+                    # nothing is thrown away by the abortive close): the server meets a dead connection while it is still busy
+                    # with the request
+                    import fcntl
+                    import termios
+                    dl = time.time() + 1.0
+                    while time.time() < dl:
+                        if struct.unpack('i', fcntl.ioctl(sk.fileno(), termios.TIOCOUTQ, b'\0\0\0\0'))[0] == 0:
+                            break
+                else:
+                    time.sleep(0.01)
                 end(sk, fault['ending'])
                 return 'done'
             if kind == 'garbage':
